@@ -848,11 +848,20 @@ func (r *Reader) sheetToTable(sheet *Sheet) ParsedTable {
 		return table // Empty
 	}
 
+	// as in the text, Markdown and document outputs: only the root of a merged
+	// region carries the value, whatever the file still stores for a covered cell
+	shown := func(cell *Cell) string {
+		if cell.IsMerged && !cell.IsMergeRoot {
+			return ""
+		}
+		return cell.Value
+	}
+
 	// First row as headers
 	if minRow <= maxRow && minRow < len(sheet.Rows) {
 		for col := minCol; col <= maxCol; col++ {
 			if col < len(sheet.Rows[minRow]) {
-				table.Headers = append(table.Headers, sheet.Rows[minRow][col].Value)
+				table.Headers = append(table.Headers, shown(&sheet.Rows[minRow][col]))
 			} else {
 				table.Headers = append(table.Headers, "")
 			}
@@ -864,7 +873,7 @@ func (r *Reader) sheetToTable(sheet *Sheet) ParsedTable {
 		var rowData []string
 		for col := minCol; col <= maxCol; col++ {
 			if row < len(sheet.Rows) && col < len(sheet.Rows[row]) {
-				rowData = append(rowData, sheet.Rows[row][col].Value)
+				rowData = append(rowData, shown(&sheet.Rows[row][col]))
 			} else {
 				rowData = append(rowData, "")
 			}
